@@ -11,7 +11,7 @@ from .. import explore as E
 from ..core import Partial, Report, pmap, seed_from_env
 from ..oracles import routing as O
 from ..routing import SPECS
-from ..rtree import sig, explore_instance, solo_validate, trace_replay_record, unit_instances, units
+from ..rtree import sig, solo_confirm, explore_instance, solo_validate, trace_replay_record, unit_instances, units
 
 PID = "C01"
 
@@ -34,6 +34,11 @@ def unit(item):
                 n_band += 1
             p.outcome(f"{spec.key}|{sorted(set(b.split(':')[0] for b in v.band))}|{v.may}")
             if not v.may:
+                sc = solo_confirm(spec, inst, h)
+                if not (sc["admitted"] and sc["done_at"] == len(h)):
+                    p.add(batch_leaks=1)
+                    p.note(f"{spec.key} {iid}: path {list(h)} exists in the batched frontier but not in a solo run: batch leak, reported under C04")
+                    continue
                 trig = v.hard[0].split(":")[0]
                 p.violation(
                     sig(PID, spec, "infeasible_solution", trig),
